@@ -7,6 +7,7 @@ import (
 	"hash/fnv"
 	"runtime"
 	"strings"
+	"sync/atomic"
 	"time"
 
 	"github.com/tetratelabs/wazero"
@@ -112,8 +113,11 @@ type worldKey struct{}
 
 type engineRT struct {
 	name string
-	term bool // runtime configured WithCloseOnContextDone(true)
+	mode string  // "" | a context variant (ctxModes) | a host-call environment (envModes)
+	env  envSpec // parsed mode
 	ctx  context.Context
+	cctx context.Context // context of every compilation (carries the listener factory in the lsn environments)
+	lsn  *countingListener
 	rt   wazero.Runtime
 	cA   wazero.CompiledModule
 	cB   wazero.CompiledModule
@@ -129,8 +133,132 @@ var (
 	binCs = [4][]byte{buildStarter("A", true), buildStarter("B", true), buildStarter("A", false), buildStarter("B", false)}
 )
 
-func newEngineRT(name string, term bool) *engineRT {
+// ---------------------------------------------------------------- host-call environments
+//
+// The engines have one code path per combination of (kind of Go host function) x (function listeners compiled
+// in or not) x (snapshots enabled for the call or not): another exit code / another wrapper around the Go call,
+// another recover in between the host function and the call's own recover. The default world uses exactly one
+// of them (api.GoModuleFunc, no listeners, no snapshotter). An environment selects one combination for the
+// whole word; the model and the oracle are unchanged (none of the three may change what the caller sees).
+const (
+	flavMod  = iota // api.GoModuleFunc (default)
+	flavGo          // api.GoFunc: no module parameter (H.close keeps GoModuleFunc: it needs the calling module)
+	flavRefl        // reflection-based WithFunc(func(ctx, mod, uint32...) ...)
+	nFlav
+)
+
+const (
+	snapOff   = iota
+	snapOn    // every call context carries experimental.WithSnapshotter; no snapshot is taken
+	snapTaken // as snapOn, and every host function of H takes a snapshot first and drops it (never restored)
+	nSnap
+)
+
+var (
+	flavNames = [nFlav]string{"mod", "go", "refl"}
+	snapNames = [nSnap]string{"nosnap", "snap", "snaptaken"}
+	lsnNames  = [2]string{"nolsn", "lsn"}
+)
+
+type envSpec struct {
+	term    bool // runtime configured WithCloseOnContextDone(true) (the context variants)
+	flavour int
+	lsn     bool
+	snap    int
+}
+
+func (v envSpec) String() string {
+	l := 0
+	if v.lsn {
+		l = 1
+	}
+	return "env-" + flavNames[v.flavour] + "-" + lsnNames[l] + "-" + snapNames[v.snap]
+}
+
+// envModes lists every environment except the default one (mod, no listener, no snapshotter).
+var envModes = func() (out []string) {
+	for f := 0; f < nFlav; f++ {
+		for l := 0; l < 2; l++ {
+			for sn := 0; sn < nSnap; sn++ {
+				if f == flavMod && l == 0 && sn == snapOff {
+					continue
+				}
+				out = append(out, envSpec{flavour: f, lsn: l == 1, snap: sn}.String())
+			}
+		}
+	}
+	return
+}()
+
+func isEnvMode(mode string) bool { return strings.HasPrefix(mode, "env-") }
+
+// modeTag is the suffix that names the mode in signatures and outcome keys.
+func modeTag(mode string) string {
+	switch {
+	case mode == "":
+		return ""
+	case isEnvMode(mode):
+		return "+" + mode
+	}
+	return "+ctx-" + mode
+}
+
+func parseMode(mode string) envSpec {
+	if mode == "" {
+		return envSpec{}
+	}
+	if !isEnvMode(mode) {
+		for _, m := range ctxModes {
+			if m == mode {
+				return envSpec{term: true}
+			}
+		}
+		fw.Fatalf("unknown mode %q", mode)
+	}
+	for _, m := range envModes {
+		if m == mode {
+			p := strings.Split(mode, "-")
+			v := envSpec{lsn: p[2] == "lsn"}
+			for i, n := range flavNames {
+				if n == p[1] {
+					v.flavour = i
+				}
+			}
+			for i, n := range snapNames {
+				if n == p[3] {
+					v.snap = i
+				}
+			}
+			return v
+		}
+	}
+	fw.Fatalf("unknown mode %q", mode)
+	return envSpec{}
+}
+
+// countingListener is attached to every function (guest, host, WASI) of the lsn environments. It only counts:
+// the pairing of Before with After/Abort is another property (C07); here the listeners are present so that the
+// engines run their listener code paths (other exit codes for host calls, Abort walk when a call unwinds).
+type countingListener struct{ before, after, abort atomic.Int64 }
+
+func (c *countingListener) NewFunctionListener(api.FunctionDefinition) experimental.FunctionListener {
+	return c
+}
+
+func (c *countingListener) Before(context.Context, api.Module, api.FunctionDefinition, []uint64, experimental.StackIterator) {
+	c.before.Add(1)
+}
+func (c *countingListener) After(context.Context, api.Module, api.FunctionDefinition, []uint64) {
+	c.after.Add(1)
+}
+func (c *countingListener) Abort(context.Context, api.Module, api.FunctionDefinition, error) {
+	c.abort.Add(1)
+}
+
+func newEngineRT(name string, mode string) *engineRT {
 	ctx := context.Background()
+	env := parseMode(mode)
+	term := env.term
 	var cfg wazero.RuntimeConfig
 	if name == "compiler" {
 		cfg = wazero.NewRuntimeConfigCompiler()
@@ -141,24 +269,19 @@ func newEngineRT(name string, term bool) *engineRT {
 	if term {
 		cfg = cfg.WithCloseOnContextDone(true)
 	}
-	e := &engineRT{name: name, term: term, ctx: ctx, rt: wazero.NewRuntimeWithConfig(ctx, cfg)}
-	if _, err := wasi_snapshot_preview1.Instantiate(ctx, e.rt); err != nil {
+	e := &engineRT{name: name, mode: mode, env: env, ctx: ctx, cctx: ctx, rt: wazero.NewRuntimeWithConfig(ctx, cfg)}
+	if env.lsn {
+		e.lsn = &countingListener{}
+		e.cctx = experimental.WithFunctionListenerFactory(ctx, e.lsn)
+	}
+	if _, err := wasi_snapshot_preview1.Instantiate(e.cctx, e.rt); err != nil {
 		fw.Fatalf("wasi: %v", err)
 	}
-	i32 := api.ValueTypeI32
-	_, err := e.rt.NewHostModuleBuilder(hostModName).
-		NewFunctionBuilder().WithGoModuleFunction(api.GoModuleFunc(hostPanic), []api.ValueType{i32}, nil).Export("panic").
-		NewFunctionBuilder().WithGoModuleFunction(api.GoModuleFunc(hostClose), []api.ValueType{i32}, nil).Export("close").
-		NewFunctionBuilder().WithGoModuleFunction(api.GoModuleFunc(func(context.Context, api.Module, []uint64) {}), []api.ValueType{i32}, []api.ValueType{i32}).Export("nop").
-		NewFunctionBuilder().WithGoModuleFunction(api.GoModuleFunc(hostCloseB), []api.ValueType{i32}, nil).Export("closeb").
-		NewFunctionBuilder().WithGoModuleFunction(api.GoModuleFunc(hostGC), nil, []api.ValueType{i32}).Export("gc").
-		NewFunctionBuilder().WithGoModuleFunction(api.GoModuleFunc(hostReenter), []api.ValueType{i32, i32, i32, i32, i32}, []api.ValueType{i32}).Export("reenter").
-		Instantiate(ctx)
-	if err != nil {
+	if _, err := buildHostModule(e.rt, env.flavour).Instantiate(e.cctx); err != nil {
 		fw.Fatalf("host module: %v", err)
 	}
 	must := func(b []byte, what string) wazero.CompiledModule {
-		c, err := e.rt.CompileModule(ctx, b)
+		c, err := e.rt.CompileModule(e.cctx, b)
 		if err != nil {
 			fw.Fatalf("%s: compile %s: %v", name, what, err)
 		}
@@ -176,7 +299,7 @@ func (e *engineRT) close() { e.rt.Close(e.ctx) }
 
 func (e *engineRT) xModule(memShape int) wazero.CompiledModule {
 	if e.cX[memShape] == nil {
-		c, err := e.rt.CompileModule(e.ctx, buildX(memShape))
+		c, err := e.rt.CompileModule(e.cctx, buildX(memShape))
 		if err != nil {
 			fw.Fatalf("%s: compile X%d: %v", e.name, memShape, err)
 		}
@@ -187,7 +310,7 @@ func (e *engineRT) xModule(memShape int) wazero.CompiledModule {
 
 func (e *engineRT) qModule() wazero.CompiledModule {
 	if e.cQ == nil {
-		c, err := e.rt.CompileModule(e.ctx, buildQ())
+		c, err := e.rt.CompileModule(e.cctx, buildQ())
 		if err != nil {
 			fw.Fatalf("%s: compile Q: %v", e.name, err)
 		}
@@ -204,7 +327,7 @@ func (e *engineRT) selfStarter(kind int, startSection bool) wazero.CompiledModul
 	if c, ok := e.self[key]; ok {
 		return c
 	}
-	c, err := e.rt.CompileModule(e.ctx, buildSelfStarter(kind, startSection))
+	c, err := e.rt.CompileModule(e.cctx, buildSelfStarter(kind, startSection))
 	if err != nil {
 		fw.Fatalf("%s: compile self-starter %s: %v", e.name, kindNames[kind], err)
 	}
@@ -217,7 +340,68 @@ func (e *engineRT) selfStarter(kind int, startSection bool) wazero.CompiledModul
 
 // ---------------------------------------------------------------- host functions
 
+// buildHostModule defines H with the six host functions in the given flavour. The bodies are the same functions
+// in every flavour; only the way wazero gets to call them differs.
+func buildHostModule(rt wazero.Runtime, flavour int) wazero.HostModuleBuilder {
+	i32 := api.ValueTypeI32
+	b := rt.NewHostModuleBuilder(hostModName)
+	nop := func(context.Context, api.Module, []uint64) {}
+	type raw = func(context.Context, api.Module, []uint64)
+	def := func(name string, f raw, params, results []api.ValueType) {
+		switch flavour {
+		case flavMod:
+			b.NewFunctionBuilder().WithGoModuleFunction(api.GoModuleFunc(f), params, results).Export(name)
+		case flavGo:
+			b.NewFunctionBuilder().WithGoFunction(api.GoFunc(func(ctx context.Context, stack []uint64) { f(ctx, nil, stack) }), params, results).Export(name)
+		}
+	}
+	if flavour == flavRefl {
+		// typed Go functions called through reflection; they marshal into the same raw bodies
+		b.NewFunctionBuilder().WithFunc(func(ctx context.Context, mod api.Module, kind uint32) {
+			hostPanic(ctx, mod, []uint64{uint64(kind)})
+		}).Export("panic")
+		b.NewFunctionBuilder().WithFunc(func(ctx context.Context, mod api.Module, code uint32) {
+			hostClose(ctx, mod, []uint64{uint64(code)})
+		}).Export("close")
+		b.NewFunctionBuilder().WithFunc(func(ctx context.Context, v uint32) uint32 { return v }).Export("nop")
+		b.NewFunctionBuilder().WithFunc(func(ctx context.Context, code uint32) {
+			hostCloseB(ctx, nil, []uint64{uint64(code)})
+		}).Export("closeb")
+		b.NewFunctionBuilder().WithFunc(func(ctx context.Context) uint32 {
+			st := []uint64{0}
+			hostGC(ctx, nil, st)
+			return uint32(st[0])
+		}).Export("gc")
+		b.NewFunctionBuilder().WithFunc(func(ctx context.Context, mod api.Module, depth, mode, tgt, kind, k uint32) uint32 {
+			st := []uint64{uint64(depth), uint64(mode), uint64(tgt), uint64(kind), uint64(k)}
+			hostReenter(ctx, mod, st)
+			return uint32(st[0])
+		}).Export("reenter")
+		return b
+	}
+	def("panic", hostPanic, []api.ValueType{i32}, nil)
+	// close acts on the calling module, which only a module function is told
+	b.NewFunctionBuilder().WithGoModuleFunction(api.GoModuleFunc(hostClose), []api.ValueType{i32}, nil).Export("close")
+	def("nop", nop, []api.ValueType{i32}, []api.ValueType{i32})
+	def("closeb", hostCloseB, []api.ValueType{i32}, nil)
+	def("gc", hostGC, nil, []api.ValueType{i32})
+	def("reenter", hostReenter, []api.ValueType{i32, i32, i32, i32, i32}, []api.ValueType{i32})
+	return b
+}
+
+// takeSnapshot: in the snaptaken environments every host function of H first takes a snapshot of the calling
+// guest and drops it (it is never restored: restoring is another property, C20).
+func takeSnapshot(ctx context.Context) {
+	if w, ok := ctx.Value(worldKey{}).(*world); ok && w.e.env.snap == snapTaken {
+		snapSink = experimental.GetSnapshotter(ctx).Snapshot()
+		snapSink = nil
+	}
+}
+
+var snapSink experimental.Snapshot
+
 func hostPanic(ctx context.Context, mod api.Module, stack []uint64) {
+	takeSnapshot(ctx)
 	// i32 parameters occupy the low half of a 64-bit slot; the high half is unspecified (api.DecodeU32)
 	switch int(api.DecodeU32(stack[0])) {
 	case KPanicError:
@@ -238,6 +422,7 @@ func hostPanic(ctx context.Context, mod api.Module, stack []uint64) {
 
 // hostCloseB closes the other guest instance (not the caller).
 func hostCloseB(ctx context.Context, mod api.Module, stack []uint64) {
+	takeSnapshot(ctx)
 	w := ctx.Value(worldKey{}).(*world)
 	_ = w.B.CloseWithExitCode(ctx, api.DecodeU32(stack[0]))
 }
@@ -248,6 +433,7 @@ var gcSink []byte
 // the outgrown stacks are garbage now. Collect (the children run with GODEBUG=clobberfree=1, so
 // freed objects are overwritten), churn blocks of the outgrown sizes, collect again.
 func hostGC(ctx context.Context, mod api.Module, stack []uint64) {
+	takeSnapshot(ctx)
 	runtime.GC()
 	for sz := 8 << 10; sz <= 256<<10; sz *= 2 {
 		b := make([]byte, sz+48)
@@ -262,6 +448,7 @@ func hostGC(ctx context.Context, mod api.Module, stack []uint64) {
 }
 
 func hostClose(ctx context.Context, mod api.Module, stack []uint64) {
+	takeSnapshot(ctx)
 	_ = mod.CloseWithExitCode(ctx, api.DecodeU32(stack[0]))
 }
 
@@ -270,7 +457,11 @@ func hostClose(ctx context.Context, mod api.Module, stack []uint64) {
 // instance A (tgt 0) or B (tgt 1). A failure of the nested call is re-raised as a panic with the
 // returned error, except at the level where depth==mode, which swallows it and returns its class code.
 func hostReenter(ctx context.Context, mod api.Module, stack []uint64) {
+	takeSnapshot(ctx)
 	w := ctx.Value(worldKey{}).(*world)
+	if mod == nil {
+		mod = w.A // api.GoFunc flavour: only A imports reenter
+	}
 	depth, mode, tgt, kind, k := uint64(api.DecodeU32(stack[0])), uint64(api.DecodeU32(stack[1])), uint64(api.DecodeU32(stack[2])), uint64(api.DecodeU32(stack[3])), uint64(api.DecodeU32(stack[4]))
 	var fn api.Function
 	var args []uint64
@@ -346,6 +537,10 @@ const (
 func newWorld(e *engineRT) *world {
 	w := &world{e: e}
 	w.ctx = context.WithValue(e.ctx, worldKey{}, w)
+	if e.env.snap != snapOff {
+		// snapshots are enabled for every call and instantiation of the word
+		w.ctx = experimental.WithSnapshotter(w.ctx)
+	}
 	w.cur = w.ctx
 	w.base = runtime.NumGoroutine()
 	var err error
